@@ -1,10 +1,368 @@
-//! Family `mem` — stub (replaced by the unit that owns this family).
+//! Family `mem` (C02): memory reclamation is invisible.
+//!
+//! Protocol (one request per line, one answer per line):
+//! ```text
+//! d <hex src>   -> <outcome>            differential: the program is run twice by the real crate
+//!                                        (Runtime::new(arena, Some(frame)) and Runtime::new(arena, None)),
+//!                                        each in a worker subprocess (a debug build aborts on poisoned
+//!                                        memory); `<outcome>` is the canonical result of the run WITH
+//!                                        reclamation; a difference between the two runs, a panic or an
+//!                                        abort is reported on stderr as `ORACLE-FAIL <line> [C02] ...`
+//! ```
+//! Canonical result of one run: `ok|rt:<message>:<lo>:<hi>|panic|abort|front:<why>` followed by
+//! ` out=` and the printed values (`s<hex>`, `n<bits>`, `b0|b1`, `z`, `[..]`, `h<hex of display>`).
+//!
+//! Sub-actions: `gen` (random programs), `product` (the enumerated value-source x store-path x
+//! reclamation-event x observation product of DESIGN "### C02"), `run`, `worker` (internal), `one <file>`.
 
-pub fn main(_args: &[String]) -> i32 {
-    eprintln!("family mem: not built yet");
-    2
+use std::io::{BufRead, BufReader, Write};
+use std::process::{Child, ChildStdin, ChildStdout, Command, Stdio};
+
+use naijascript::arena::Arena;
+use naijascript::runtime::{Runtime, Value};
+
+use crate::pipeline;
+use crate::util::{self, Out};
+
+#[path = "memgen.rs"]
+mod memgen;
+#[path = "memtrace.rs"]
+mod memtrace;
+
+/// The memory-trace hook of /repo (`arena::verif_hooks::mem_trace_*`, proposed-fixes/hook-mem-trace.diff).
+/// The block-level glob imports pick the crate's functions when they exist and fall back to the
+/// no-op functions of this module otherwise, so the harness builds against a tree without the hook.
+mod hook {
+    pub type Ev = (&'static str, u64, u64);
+    fn mem_trace_start() {}
+    fn mem_trace_take() -> Vec<Ev> {
+        Vec::new()
+    }
+    fn mem_trace(_k: &'static str, _a: u64, _b: u64) {}
+    pub fn start() {
+        #[allow(unused_imports)]
+        use naijascript::arena::verif_hooks::*;
+        mem_trace_start()
+    }
+    pub fn take() -> Vec<Ev> {
+        #[allow(unused_imports)]
+        use naijascript::arena::verif_hooks::*;
+        mem_trace_take()
+    }
+    pub fn present() -> bool {
+        #[allow(unused_imports)]
+        use naijascript::arena::verif_hooks::*;
+        mem_trace_start();
+        mem_trace("probe", 0, 0);
+        !mem_trace_take().is_empty()
+    }
 }
 
-/// Constants/tables of the compiled crate this family wants in `nvh dump-tables`
-/// (JSON key, JSON value text).
+pub fn main(args: &[String]) -> i32 {
+    match args.first().map(String::as_str) {
+        Some("run") => run(&args[1..]),
+        Some("worker") => worker(),
+        Some("one") => one(&args[1..]),
+        Some("hook-present") => {
+            println!("{}", u8::from(hook::present()));
+            0
+        }
+        Some("gen") if util::opt(&args[1..], "--kind") == Some("trace") => {
+            let seed = util::opt_u64(&args[1..], "--seed", 1);
+            let n = util::opt_u64(&args[1..], "--n", 1000);
+            memtrace::generate(seed, n)
+        }
+        Some("gen") => {
+            let seed = util::opt_u64(&args[1..], "--seed", 1);
+            let n = util::opt_u64(&args[1..], "--n", 1000);
+            let mut out = Out::new();
+            for src in memgen::random_programs(seed, n) {
+                out.line(&format!("d {}", util::hex(src.as_bytes())));
+            }
+            0
+        }
+        Some("product") => {
+            let mut out = Out::new();
+            for (tag, src) in memgen::product_programs() {
+                out.line(&format!("d {}", util::hex(format!("# {tag}\n{src}").as_bytes())));
+            }
+            0
+        }
+        _ => {
+            eprintln!("usage: nvh mem gen|product|run|one ...");
+            2
+        }
+    }
+}
+
+/// Constants/tables of the compiled crate this family wants in `nvh dump-tables`.
 pub fn dump_tables(_out: &mut Vec<(String, String)>) {}
+
+// ------------------------------------------------------------------------------------------------
+// one run of the real interpreter
+
+const ARENA_CAP: usize = 64 << 20;
+const FRAME_CAP: usize = 16 << 20;
+
+fn canon_value(v: &Value<'_>, out: &mut String) {
+    match v {
+        Value::Str(s) => {
+            out.push('s');
+            out.push_str(&util::hex(s.as_bytes()));
+        }
+        Value::Number(n) => {
+            let bits = if n.is_nan() { 0x7ff8_0000_0000_0000 } else { n.to_bits() };
+            out.push_str(&format!("n{bits:016x}"));
+        }
+        Value::Bool(b) => out.push_str(if *b { "b1" } else { "b0" }),
+        Value::Null => out.push('z'),
+        Value::Array(items) => {
+            out.push('[');
+            for (i, it) in items.iter().enumerate() {
+                if i > 0 {
+                    out.push(',');
+                }
+                canon_value(it, out);
+            }
+            out.push(']');
+        }
+        Value::Host(..) => {
+            out.push('h');
+            out.push_str(&util::hex(format!("{v}").as_bytes()));
+        }
+    }
+}
+
+/// Runs `src` through lex → parse → resolve → run (facts attached, no optimisation plan) and
+/// returns the canonical result.
+fn run_once(src: &str, with_frame: bool) -> String {
+    run_traced(src, with_frame, false).0
+}
+
+/// As `run_once`; with `trace` the hook log of the run is returned as well.
+fn run_traced(src: &str, with_frame: bool, trace: bool) -> (String, Vec<hook::Ev>) {
+    let mut events = Vec::new();
+    let r = run_inner(src, with_frame, trace, &mut events);
+    (r, events)
+}
+
+fn run_inner(src: &str, with_frame: bool, trace: bool, events: &mut Vec<hook::Ev>) -> String {
+    let arena = Arena::new(ARENA_CAP).unwrap();
+    let frame = Arena::new(FRAME_CAP).unwrap();
+    pipeline::with_resolved(src, &arena, |root, pd, res| {
+        let Some(res) = res else {
+            return format!("front:parse:{}", pd.diagnostics.len());
+        };
+        if res.errors.has_errors() {
+            return "front:resolve".to_string();
+        }
+        let mut rt = Runtime::new(&arena, if with_frame { Some(&frame) } else { None });
+        if trace {
+            hook::start();
+        }
+        rt.run_with_analysis(root, &res.facts, None);
+        if trace {
+            *events = hook::take();
+        }
+        let mut s = String::new();
+        match rt.errors.diagnostics.first() {
+            None => s.push_str("ok"),
+            Some(d) => {
+                s.push_str(&format!("rt:{}:{}:{}", d.message.replace(' ', "_"), d.span.start, d.span.end))
+            }
+        }
+        s.push_str(" out=");
+        for (i, v) in rt.output.iter().enumerate() {
+            if i > 0 {
+                s.push(';');
+            }
+            canon_value(v, &mut s);
+        }
+        s
+    })
+}
+
+// ------------------------------------------------------------------------------------------------
+// worker subprocess: `<F|N> <hex src>` per line on stdin, one answer line on the saved stdout
+
+fn worker() -> i32 {
+    util::silence_panics();
+    // `shout` prints to the real stdout: keep a private copy of fd 1 for the answers and point fd 1
+    // at /dev/null.
+    let saved = unsafe { libc::dup(1) };
+    let devnull = unsafe { libc::open(c"/dev/null".as_ptr(), libc::O_WRONLY) };
+    unsafe { libc::dup2(devnull, 1) };
+    let mut out = unsafe { <std::fs::File as std::os::fd::FromRawFd>::from_raw_fd(saved) };
+    let stdin = std::io::stdin();
+    for line in stdin.lock().lines() {
+        let Ok(line) = line else { break };
+        let w: Vec<&str> = line.split_whitespace().collect();
+        let ans = match w.as_slice() {
+            [mode @ ("F" | "N"), src] => match util::unhex(src).and_then(|b| String::from_utf8(b).ok()) {
+                Some(text) => util::catch(|| run_once(&text, *mode == "F")).unwrap_or_else(|_| "panic".to_string()),
+                None => "bad-op".to_string(),
+            },
+            // frame run with the hook log: `<result> trace=<kind:a:b,...>`
+            ["T", src] => match util::unhex(src).and_then(|b| String::from_utf8(b).ok()) {
+                Some(text) => util::catch(|| {
+                    let (r, ev) = run_traced(&text, true, true);
+                    let evs: Vec<String> = ev.iter().map(|(k, a, b)| format!("{k}:{a}:{b}")).collect();
+                    format!("{r} trace={}", if evs.is_empty() { "-".to_string() } else { evs.join(",") })
+                })
+                .unwrap_or_else(|_| "panic".to_string()),
+                None => "bad-op".to_string(),
+            },
+            _ => "bad-op".to_string(),
+        };
+        if writeln!(out, "{ans}").is_err() || out.flush().is_err() {
+            break;
+        }
+    }
+    0
+}
+
+struct Worker {
+    child: Child,
+    stdin: ChildStdin,
+    stdout: BufReader<ChildStdout>,
+}
+
+impl Worker {
+    fn spawn() -> Worker {
+        let exe = std::env::current_exe().expect("own path");
+        let mut child = Command::new(exe)
+            .args(["mem", "worker"])
+            .stdin(Stdio::piped())
+            .stdout(Stdio::piped())
+            .stderr(Stdio::null())
+            .spawn()
+            .expect("spawn worker");
+        let stdin = child.stdin.take().unwrap();
+        let stdout = BufReader::new(child.stdout.take().unwrap());
+        Worker { child, stdin, stdout }
+    }
+
+    /// One request; `None` = the worker died on it.
+    fn ask(&mut self, req: &str) -> Option<String> {
+        if writeln!(self.stdin, "{req}").is_err() || self.stdin.flush().is_err() {
+            return None;
+        }
+        let mut line = String::new();
+        match self.stdout.read_line(&mut line) {
+            Ok(n) if n > 0 => Some(line.trim_end().to_string()),
+            _ => None,
+        }
+    }
+}
+
+impl Drop for Worker {
+    fn drop(&mut self) {
+        let _ = self.child.kill();
+        let _ = self.child.wait();
+    }
+}
+
+struct Pool2 {
+    w: Option<Worker>,
+}
+
+impl Pool2 {
+    fn ask(&mut self, req: &str) -> String {
+        if self.w.is_none() {
+            self.w = Some(Worker::spawn());
+        }
+        match self.w.as_mut().unwrap().ask(req) {
+            Some(a) => a,
+            None => {
+                self.w = None; // restart lazily
+                "abort".to_string()
+            }
+        }
+    }
+}
+
+/// Both runs of one program: (with reclamation, without) and the hook log of the first.
+fn differential(p: &mut Pool2, hexsrc: &str) -> (String, String, String) {
+    let t = p.ask(&format!("T {hexsrc}"));
+    let (f, tr) = match t.split_once(" trace=") {
+        Some((f, tr)) => (f.to_string(), tr.to_string()),
+        None => (t, "-".to_string()),
+    };
+    let n = p.ask(&format!("N {hexsrc}"));
+    (f, n, tr)
+}
+
+/// Reclamation statistics of a hook log: frame resets, pool frees, pool allocations, allocations
+/// that reuse a previously freed slot, clone-on-read copies.
+fn stats(trace: &str) -> String {
+    let (mut resets, mut frees, mut allocs, mut reuse, mut rcopy) = (0, 0, 0, 0, 0);
+    let mut freed = std::collections::HashSet::new();
+    for ev in trace.split(',') {
+        let w: Vec<&str> = ev.split(':').collect();
+        match w.as_slice() {
+            ["reset", ..] => resets += 1,
+            ["pfree", c, i] => {
+                frees += 1;
+                freed.insert((c.to_string(), i.to_string()));
+            }
+            ["palloc", c, i] => {
+                allocs += 1;
+                if freed.remove(&(c.to_string(), i.to_string())) {
+                    reuse += 1;
+                }
+            }
+            ["rcopy", ..] => rcopy += 1,
+            _ => {}
+        }
+    }
+    format!("resets={resets} frees={frees} pallocs={allocs} reuse={reuse} rcopy={rcopy}")
+}
+
+fn verdict(f: &str, n: &str) -> Option<String> {
+    if f.starts_with("panic") || f.starts_with("abort") {
+        return Some(format!("run with reclamation ended in {f}; without: {n}"));
+    }
+    if f != n {
+        return Some(format!("with reclamation: {f}; without: {n}"));
+    }
+    None
+}
+
+fn run(_args: &[String]) -> i32 {
+    let mut out = Out::new();
+    let mut pool = Pool2 { w: None };
+    for (i, line) in util::stdin_lines().iter().enumerate() {
+        let w: Vec<&str> = line.split_whitespace().collect();
+        match w.as_slice() {
+            ["d", src] => {
+                let (f, n, tr) = differential(&mut pool, src);
+                if let Some(why) = verdict(&f, &n) {
+                    eprintln!("ORACLE-FAIL {} [C02] {why}", i + 1);
+                }
+                let end = f.split(' ').next().unwrap_or("?").split(':').next().unwrap_or("?");
+                eprintln!("STAT {} end={end} {}", i + 1, stats(&tr));
+                // the model's prediction for a differential is "equal" (theorem c02_erasure)
+                out.line("d");
+            }
+            ["m", src, ..] => out.line(&memtrace::answer(&mut pool, src)),
+            _ => out.line("bad-op"),
+        }
+    }
+    0
+}
+
+/// `nvh mem one <file>`: differential on one source file, human readable.
+fn one(args: &[String]) -> i32 {
+    let Some(path) = args.first() else { return 2 };
+    let src = std::fs::read(path).expect("read");
+    let mut pool = Pool2 { w: None };
+    let (f, n, tr) = differential(&mut pool, &util::hex(&src));
+    println!("frame:    {f}\nno-frame: {n}\nstats:    {}\ntrace:    {tr}", stats(&tr));
+    match verdict(&f, &n) {
+        Some(why) => {
+            println!("DIFFERENT: {why}");
+            1
+        }
+        None => 0,
+    }
+}
